@@ -200,6 +200,8 @@ func (c *GroupCoordinator) JoinGroup(ctx context.Context, req *kmsg.JoinGroupReq
 	}
 	if err := c.persistGroupLocked(ctx, req.Group, state); err != nil {
 		resp.ErrorCode = protocol.UNKNOWN_SERVER_ERROR
+		// only a successful reply to the leader carries the member list
+		resp.Members = []kmsg.JoinGroupResponseMember{}
 	}
 	c.mu.Unlock()
 	return resp, nil
